@@ -12,7 +12,7 @@ import ast
 
 from .alg import AlgError, Context, Rat
 from .extract import Extractor, Closure, Opaque, PathRaises, ReturnValue, _dotted
-from .model import Program
+from .model import canon, Program
 from .report import AnalysisError
 
 TOK = "hypnotoad/cases/tokamak.py"
@@ -313,7 +313,7 @@ def topology(prog, seedname, start_at_upper_outer=False):
     if not isinstance(order, list):
         raise AnalysisError("region ordering not found in createRegionObjects")
     # the ordered dict is built by filtering `ordering` by presence
-    ret_ok = any(isinstance(n, ast.Return) and "".join(mod.text(n.value).split()) == "OrderedDict([(key,region_objects[key])forkeyinorderingifkeyinregion_objects])" for n in ast.walk(g.node))
+    ret_ok = any(isinstance(n, ast.Return) and mod.code(n.value) == canon("OrderedDict([(key, region_objects[key]) for key in ordering if key in region_objects])") for n in ast.walk(g.node))
     if not ret_ok:
         raise AnalysisError("createRegionObjects no longer returns OrderedDict filtered from `ordering`")
     t = Topology(seedname + ("/start_at_upper_outer" if start_at_upper_outer else ""), seed, leg_regions, core_regions, segments, connections, order,
